@@ -31,6 +31,29 @@ class HarnessError(TypeError, ValueError, LookupError, ArithmeticError, Assertio
         self.tid, self.site = tid, site
 
 
+import collections.abc
+
+
+class CoWrap(collections.abc.Coroutine):
+    """What a tracing / timing decorator returns: an object implementing the Coroutine protocol
+    around a native coroutine (asyncio accepts it wherever it accepts a coroutine)."""
+
+    def __init__(self, co):
+        self._co = co
+
+    def send(self, v):
+        return self._co.send(v)
+
+    def throw(self, *a):
+        return self._co.throw(*a)
+
+    def close(self):
+        return self._co.close()
+
+    def __await__(self):
+        return self._co.__await__()
+
+
 class Bad:
     """An element / argument for which the call of the worker function raises."""
 
@@ -48,6 +71,10 @@ def bad_at(pat, i):
     return i + 1 < len(pat) and pat[i + 1] == "1"
 
 
+# some user-chosen group names are unusual strings: empty, with a newline, looking like a flag
+USER_NAMES = {"3": "", "2": "line one\nline two", "1": "--group-name"}
+
+
 def gname_to_str(g):
     if g[0] == "A":
         m, i = g[1:].split(".")
@@ -55,7 +82,7 @@ def gname_to_str(g):
     if g[0] == "S":
         return f"start-group-{g[1:]}"
     if g[0] == "U":
-        return f"user-{g[1:]}"
+        return USER_NAMES.get(g[1:], f"user-{g[1:]}")
     raise ValueError(g)
 
 
@@ -69,6 +96,9 @@ def str_to_gname(s):
     m = re.fullmatch(r"user-(\d+)", s)
     if m:
         return f"U{m.group(1)}"
+    for k, v in USER_NAMES.items():
+        if s == v:
+            return f"U{k}"
     return "X" + re.sub(r"[^A-Za-z0-9]", "_", s)
 
 
@@ -122,6 +152,12 @@ class PoolRun:
         self.stats = {"user_points": 0}
         size = cfg["size"]
         psize = float("inf") if size == "inf" else int(size)
+        if size != "inf":
+            # whole numbers that are not of type int are sizes too
+            import fractions
+            import zlib
+            k = zlib.crc32(repr(sorted(cfg.items())).encode()) % 4
+            psize = [psize, psize, float(psize), fractions.Fraction(psize)][k]
         self._mk_work()
         if cfg["kind"] == "simple":
             bad_at(cfg["bad"], 0)     # syntax check
@@ -244,7 +280,10 @@ class PoolRun:
                 if bad_at(pat, k):
                     # the call func(*args, **kwargs) of exactly this invocation raises
                     raise TypeError(f"bad call {k}")
-            return run._worker(req, k if ok else 999, w)
+            co = run._worker(req, k if ok else 999, w)
+            if isinstance(req, int) and req % 4 == 3:
+                return CoWrap(co)        # a coroutine object that is not a native coroutine
+            return co
 
         inspect.markcoroutinefunction(work)
         work.__name__ = "work"
@@ -253,7 +292,23 @@ class PoolRun:
         def notcoro(*a, **k):
             return None
         notcoro.__name__ = "work"
-        self.notcoro = notcoro
+
+        import functools
+
+        async def native(*a, **k):
+            return None
+
+        @functools.wraps(native)
+        def wrapped_plain(*a, **k):      # a plain function that *wraps* a coroutine function
+            return None
+        wrapped_plain.__name__ = "work"
+        self._notcoros = [notcoro, wrapped_plain]
+        self.n_notcoro = 0
+
+    @property
+    def notcoro(self):
+        self.n_notcoro += 1
+        return self._notcoros[self.n_notcoro % 2]
 
     def _cur_simple_req(self):
         # SimpleTaskPool: which start() request is calling?  the running meta task
@@ -288,11 +343,17 @@ class PoolRun:
             self.events.append(f"exit:{tid}")
             if self.fin.get(tid) == "x":
                 raise HarnessError(tid, "w")
-            return None
+            return self._result(tid)
         self.events.append(f"exit:{tid}")
         if w[0] == "x":
             raise HarnessError(tid, "w")
-        return None
+        return self._result(tid)
+
+    @staticmethod
+    def _result(tid):
+        """What a worker returns: mostly None; now and then an exception *instance* as an ordinary
+        value (returned, not raised) or another odd object."""
+        return [None, ValueError(f"just a value {tid}"), None, 0, HarnessError(tid, "returned")][tid % 5]
 
     def classify(self, tid):
         """Public-API probe of the state the pool files `tid` under (side-effect free unless the
@@ -316,6 +377,11 @@ class PoolRun:
         if form == 1:
             import functools
             return functools.partial(f)
+        if form == 0 and not inspect.iscoroutinefunction(f) and self.n_cbs % 2 == 0:
+            class CallableList(list):      # an unhashable callable object
+                def __call__(self_, tid):
+                    return f(tid)
+            return CallableList([1])
         if form == 2:
             if inspect.iscoroutinefunction(f):
                 class Holder:
